@@ -216,6 +216,29 @@ def run(tier, seed):
     except Exception as e:
         import traceback
         ck.disagree('signing identity probe raised %r' % (e,), {'trace': traceback.format_exc()[-400:]})
+    # values that have no encoding must not get one: an input whose signature slot is empty (None) either refuses to
+    # encode or, if it encodes, decodes back to the same value -- it must not share bytes (and id) with a different value
+    try:
+        from skepticoin.datatypes import Input as _In, OutputReference as _OR2, Transaction as _T2, Output as _O2
+        from skepticoin.signing import SECP256k1PublicKey as _PK2
+        empty_in = _In(_OR2(b'\x05' * 32, 1), None)
+        t_un = _T2(inputs=[empty_in], outputs=[_O2(5, _PK2(b'\x06' * 64))])
+        for what_, obj_, dec_ in (('input', empty_in, _In), ('transaction', t_un, _T2)):
+            try:
+                bs_ = obj_.serialize()
+            except Exception:
+                bs_ = None
+            ck.case(('empty-signature', what_), kind='value-without-encoding/' + what_)
+            if bs_ is not None:
+                back_ = dec_.deserialize(bs_)
+                sig_back = back_.signature if what_ == 'input' else back_.inputs[0].signature
+                if sig_back is not None:
+                    ck.violation('roundtrip', 'an %s whose signature slot is empty (None) encodes, and the bytes decode to a DIFFERENT '
+                                 'value (signature %s): two values share one encoding and one id' % (what_, type(sig_back).__name__),
+                                 {'type': 'tx', 'origin': 'empty-signature', 'bytes': bs_.hex()})
+    except Exception as e:
+        import traceback
+        ck.disagree('empty-signature probe raised %r' % (e,), {'trace': traceback.format_exc()[-400:]})
     # heights at the top of the encodable range (the length prefix of a number grows to 10 octets at 2^63)
     from skepticoin.datatypes import BlockSummary as _BS
     for hgt in (2 ** 62 - 1, 2 ** 62, 2 ** 63 - 1, 2 ** 63, 2 ** 64 - 1, 2 ** 70):
